@@ -53,19 +53,20 @@ type world struct {
 	mu       sync.Mutex
 	hq       map[int]*hqueue // call token -> queue
 	hn       int
-	handlers []*hstate
+	usedTok  map[int]bool
+	handlers []*hstate // live (not yet returned) handler incarnations
 	closed   bool
 	connOf   func(ctx context.Context) int
 }
 
-func newWorld() *world { return &world{hq: map[int]*hqueue{}} }
+func newWorld() *world { return &world{hq: map[int]*hqueue{}, usedTok: map[int]bool{}} }
 
 func (w *world) queue(c int) *hqueue {
 	w.mu.Lock()
 	defer w.mu.Unlock()
 	q, ok := w.hq[c]
 	if !ok {
-		q = &hqueue{ch: make(chan HOp, 4096)}
+		q = &hqueue{ch: make(chan HOp, 64)}
 		if w.closed {
 			close(q.ch)
 		}
@@ -84,6 +85,13 @@ func (w *world) push(c int, ops ...HOp) {
 	for _, op := range ops {
 		q.ch <- op
 	}
+}
+
+// forget drops the program queue of a call (long histories).
+func (w *world) forget(c int) {
+	w.mu.Lock()
+	delete(w.hq, c)
+	w.mu.Unlock()
 }
 
 // closeAll ends every handler program (used by the final unwind).
@@ -114,21 +122,25 @@ func (w *world) newHandler(ctx context.Context, kind string) (*hstate, *hqueue) 
 	}
 	// a call token serves one handler incarnation; later ones get the default program
 	var q *hqueue
-	if c != 0 {
-		used := false
-		for _, o := range w.handlers {
-			if o.c == c {
-				used = true
-			}
-		}
-		if !used {
-			// no scripted program for this token (raw peers): default program
-			q = w.hq[c]
-		}
+	if c != 0 && !w.usedTok[c] {
+		// no scripted program for this token (raw peers): default program
+		w.usedTok[c] = true
+		q = w.hq[c]
 	}
 	w.handlers = append(w.handlers, hs)
 	w.mu.Unlock()
 	return hs, q
+}
+
+func (w *world) dropLocked(hs *hstate) {
+	for i, o := range w.handlers {
+		if o == hs {
+			w.handlers[i] = w.handlers[len(w.handlers)-1]
+			w.handlers = w.handlers[:len(w.handlers)-1]
+			break
+		}
+	}
+	delete(w.hq, hs.c)
 }
 
 func (w *world) setIn(hs *hstate, in string) {
@@ -309,6 +321,7 @@ func (w *world) runUnary(ctx context.Context, in *wrapperspb.BytesValue) (any, e
 	}
 	w.mu.Lock()
 	hs.ret = true
+	w.dropLocked(hs)
 	tr.emit(he)
 	w.mu.Unlock()
 	if rerr != nil {
@@ -472,6 +485,7 @@ func (w *world) runStream(kind string, ss grpc.ServerStream) error {
 	}
 	w.mu.Lock()
 	hs.ret = true
+	w.dropLocked(hs)
 	tr.emit(he)
 	w.mu.Unlock()
 	return rerr
